@@ -172,7 +172,31 @@ def _index_in_range(recv: V, idx: V, p: Path, e: Event) -> bool:
         for fk, t, b in p.facts[:e.nfacts]:
             if isinstance(t, Term) and t.op in ("lt", "eq") and f"len({rk})" in fk:
                 return True
+        # first / last element of a sequence built one-for-one from a source that is known to be non-empty
+        src = _one_for_one_source(recv)
+        if src is not None and idx.value in (0, -1):
+            sk = f"len({src.key()})"
+            for fk, t, b in p.facts[:e.nfacts]:
+                if isinstance(t, Term) and t.op == "eq" and not b and {t.args[0].key(), t.args[1].key()} == {"0", sk}:
+                    return True
+                if isinstance(t, Term) and t.op == "lt" and b and t.args[0].key() == "0" and t.args[1].key() == sk:
+                    return True
     return False
+
+
+def _one_for_one_source(v: V) -> "V | None":
+    """S when len(v) == len(S) by construction: sorted(X) / list(X) / reversed(X), an unconditional comprehension
+    over S, enumerate(S)."""
+    changed = False
+    while isinstance(v, Term):
+        if v.op in ("sorted", "list", "reversed", "enumerate", "src") and v.args and isinstance(v.args[0], V):
+            v = v.args[0]
+        elif v.op == "listcomp" and len(v.args) == 2 and isinstance(v.args[1], Term):     # no `if` clause recorded
+            v = v.args[1]
+        else:
+            break
+        changed = True
+    return v if changed else None
 
 
 def _at_most_len(upper: V, recv: V) -> bool:
@@ -184,6 +208,12 @@ def _at_most_len(upper: V, recv: V) -> bool:
         return True
     if isinstance(upper, Sym) and upper.origin and upper.origin[0] == "index" and upper.origin[1].key() == rk:
         return True
+    if isinstance(upper, Sym) and upper.origin and upper.origin[0] == "range" and isinstance(upper.origin[1], Term) \
+            and upper.origin[1].args:
+        r = upper.origin[1]
+        stop = r.args[-1] if len(r.args) <= 2 else r.args[1]      # a value drawn from range(.., stop) is < stop
+        if isinstance(stop, V) and _at_most_len(stop, recv):
+            return True
     if isinstance(upper, Term) and upper.op == "max" and len(upper.args) == 2:
         a, b = upper.args
         for x, y in ((a, b), (b, a)):
